@@ -54,6 +54,12 @@ Definition records_eqb (a b : records) :=
   | RDefault x, RDefault y => batch_eqb x y
   | _, _ => false
   end.
+Definition zz_eqb (a b : Z * Z) := (fst a =? fst b) && (snd a =? snd b).
+Definition fblock_eqb (a b : fblock) :=
+  (fb_err a =? fb_err b) && (fb_hwm a =? fb_hwm b) && (fb_lso a =? fb_lso b) && (fb_log_start a =? fb_log_start b) &&
+  option_eqb (list_eqb zz_eqb) (fb_aborted a) (fb_aborted b) && (fb_replica a =? fb_replica b) &&
+  option_eqb records_eqb (fb_records a) (fb_records b) && list_eqb records_eqb (fb_set a) (fb_set b) &&
+  Bool.eqb (fb_partial a) (fb_partial b).
 Definition crtype_eqb (a b : crtype) :=
   match a, b with CRAbort, CRAbort | CRCommit, CRCommit | CRUnknown, CRUnknown => true | _, _ => false end.
 Definition control_eqb (a b : control_record) :=
@@ -64,7 +70,8 @@ Inductive lval :=
 | LRecord (r : record) | LRecords (rs : list record) | LBatch (b : batch) | LMset (s : mset) | LTop (r : records)
 | LControlKey (c : control_record) | LControlValue (c : control_record)
 | LRespHeader (version length corr : Z)
-| LRequest (hv key version corr : Z) (client_id : list Z) (body : list Z).
+| LRequest (hv key version corr : Z) (client_id : list Z) (body : list Z)
+| LFBlock (version : Z) (b : fblock).
 
 Definition lval_ops (t : tbl) (v : lval) : eerr + eops :=
   match v with
@@ -77,6 +84,7 @@ Definition lval_ops (t : tbl) (v : lval) : eerr + eops :=
   | LControlValue c => inr (control_value_ops c)
   | LRespHeader v l c => inr (response_header_ops v l c)
   | LRequest hv k v c cid body => inr (request_ops hv k v c cid (ECons (PRawBytes (Some body)) ENil))
+  | LFBlock v b => fblock_ops (tlookup t) v b
   end.
 
 Record ecase2 := {
@@ -94,11 +102,12 @@ Definition mismatches_enc2 := mismatches ok_enc2.
 Inductive dkind :=
 | KRecord | KRecords (n : Z) | KBatch | KMset | KTop
 | KControl (value : list Z) | KRespHeader (version : Z) | KReqHeader (hv : option Z)
-| KReceive (version expect_corr : Z).   (* Broker.responseReceiver on a frame header; offsets are not observable *)
+| KReceive (version expect_corr : Z)
+| KFBlock (version : Z).   (* Broker.responseReceiver on a frame header; offsets are not observable *)
 Inductive dres :=
 | DRecord (r : record) | DRecordsL (rs : list record) | DBatch (b : batch) | DMset (s : mset) | DTop (r : records)
 | DControl (c : control_record) | DResp (length corr : Z) | DReq (key version corr : Z) (client_id : list Z)
-| DAccepted.
+| DAccepted | DFBlock (b : fblock).
 
 Definition dres_eqb (a b : dres) : bool :=
   match a, b with
@@ -111,6 +120,7 @@ Definition dres_eqb (a b : dres) : bool :=
   | DResp l1 c1, DResp l2 c2 => (l1 =? l2) && (c1 =? c2)
   | DReq k1 v1 c1 i1, DReq k2 v2 c2 i2 => (k1 =? k2) && (v1 =? v2) && (c1 =? c2) && lz_eqb i1 i2
   | DAccepted, DAccepted => true
+  | DFBlock x, DFBlock y => fblock_eqb x y
   | _, _ => false
   end.
 
@@ -127,6 +137,7 @@ Definition run_kind (t : tbl) (k : dkind) (d : dec) : res dres :=
   | KRespHeader v => rmap (fun p => DResp (fst p) (snd p)) (response_header_decode v d)
   | KReqHeader hv => rmap (fun p => let '(k, v, c, i) := p in DReq k v c i) (request_header_decode (fun _ _ => hv) d)
   | KReceive v c => rmap (fun _ => DAccepted) (response_receive v c d)
+  | KFBlock v => rmap DFBlock (fblock_decode (tlookup t) DEPTH v d)
   end.
 Definition off_observable (k : dkind) : bool := match k with KReceive _ _ => false | _ => true end.
 
